@@ -91,7 +91,11 @@ func TestVerifConfChain(t *testing.T) {
 				if strings.Contains(why, "but step") {
 					c = "chain-steps-not-adjacent"
 				}
-				report(c+tag, "webhook/conversion.(Chain).NextRules", fmt.Sprintf("rules %v, request %s->%s: got %v: %s", declared, from, to, path, why))
+				fn := "webhook/conversion.(Chain).NextRules"
+				if c != "chain-steps-not-adjacent" {
+					fn = "webhook/conversion.(ChainStorage).FindConversionChain"
+				}
+				report(c+tag, fn, fmt.Sprintf("rules %v, request %s->%s: got %v: %s", declared, from, to, path, why))
 			}
 		}
 	}
